@@ -982,6 +982,19 @@ def value_table(val, batch):
     return lambda p: data[tuple(p[k] for k in names)]
 
 
+def table_of(f, names, sizes):
+    """ndarray of a ground funsor indexed by the named batch inputs (in this order) + output dims;
+    inputs `f` does not have are broadcast (sizes: name -> size)."""
+    from ..futil import table
+    extra = [k for k in f.inputs if k not in names]
+    if extra:
+        raise KeyError(f"unexpected inputs {extra} in result")
+    tab = table(f, [(k, sizes[k]) for k in names])
+    if tab is None:
+        raise Declined("lazy:" + type(f).__name__.split("[")[0])
+    return tab
+
+
 class CaseFail(Exception):
     def __init__(self, name, **kw):
         self.name = name
@@ -1307,7 +1320,7 @@ def correspond(ctx, use_driver=True, volume=None):
                 "(rank padding), plate fusion.  Non-trivial = at least one operation checked after construction; "
                 "distinct by seed and operation sequence.")
     env = Env(ctx, use_driver)
-    n = volume or (260 if ctx.tier == "quick" else 4000)
+    n = volume or (700 if ctx.tier == "quick" else 14000)
     if env.use_driver:
         offsets_stream(ctx, 60 if ctx.tier == "quick" else 600)
     for _ in range(n):
